@@ -48,7 +48,26 @@ fn go15(op: &str, args: &[Arg]) -> Option<String> {
     })
 }
 
+/// vector norms along an axis for any numeric element type (the two-norm of an integer lane is the root of the sum of
+/// squares converted to the type — seeded change C15n: the general p-norm arm took the exponent 1/2 in the element type)
+fn norm_ax<N: FromLabel + NumericOps>(args: &[Arg]) -> Option<String> {
+    let (s1, e1, ord, ax) = match args { [Arg::A(s1, e1), ord, Arg::Z(ax)] => (s1, e1, ord, *ax as isize), _ => return None };
+    let a = Array::<N>::new(e1.iter().map(|&x| N::conv(false, x)).collect(), s1.clone()).ok()?;
+    let axis = Some(vec![ax]);
+    Some(match ord {
+        Arg::N => res_arr(&a.norm(None::<NormOrd>, axis, None)),
+        Arg::Z(1) => res_arr(&a.norm(Some(NormOrd::Int(1)), axis, None)),
+        Arg::Z(2) => w2(res_arr(&a.norm(Some(NormOrd::Int(2)), axis.clone(), None)), res_arr(&a.norm(Some("2"), axis, None))),
+        Arg::Z(99) => w2(res_arr(&a.norm(Some(NormOrd::Inf), axis.clone(), None)), res_arr(&a.norm(Some("inf"), axis, None))),
+        _ => return None })
+}
+
 pub fn dispatch(op: &str, ty: &str, args: &[Arg]) -> Option<String> {
+    if op == "norm_ax" {
+        let r = match ty { "i8" => norm_ax::<i8>(args), "i16" => norm_ax::<i16>(args), "i32" => norm_ax::<i32>(args), "i64" => norm_ax::<i64>(args),
+                           "f32" => norm_ax::<f32>(args), _ => norm_ax::<f64>(args) };
+        return Some(r.unwrap_or_else(|| "bad:input".to_string()));
+    }
     if let "solve" | "det" | "detstack" | "qr" | "norm" = op { return Some(go15(op, args).unwrap_or_else(|| "bad:input".to_string())); }
     match op { "vdot" | "inner" | "outer" | "matmul" | "matmul_pinned" | "dot" | "dot_pinned"
                | "sym_vdot" | "sym_inner" | "sym_outer" | "sym_matmul" | "sym_dot" => {} _ => return None }
